@@ -565,6 +565,14 @@ impl RingBuffer {
     }
 }
 
+#[cfg(feature = "verif_hooks")]
+impl RingBuffer {
+    /// Verification-only read-only accessor for `(cap, head, tail)`.
+    pub fn verif_positions(&self) -> (usize, usize, usize) {
+        (self.cap, self.head, self.tail)
+    }
+}
+
 impl Drop for RingBuffer {
     fn drop(&mut self) {
         if self.cap == 0 {
